@@ -1271,11 +1271,15 @@ class Compiler:
     def visit_Target(self, node):
         backup = "__previous_i18n_target_%s" % mangle(id(node))
         tmp = "__tmp_%s" % mangle(id(node))
+        # Note that expressions (including the translation of static
+        # attributes) look up the target language in the context.
         return template("BACKUP = target_language", BACKUP=backup) + \
             self._engine(node.expression, store(tmp)) + \
             [ast.Assign([store("target_language")], load(tmp))] + \
+            template("econtext['target_language'] = target_language") + \
             self.visit(node.node) + \
-            template("target_language = BACKUP", BACKUP=backup)
+            template("target_language = BACKUP", BACKUP=backup) + \
+            template("econtext['target_language'] = target_language")
 
     def visit_TxContext(self, node):
         backup = "__previous_i18n_context_%s" % mangle(id(node))
